@@ -158,6 +158,19 @@ def one_case(ctx, rng, mode, prefix, idx):
     conf = {"auth": {"type": "none"}, "rights": {"type": "owner_only"}}
     if mode == "config_proxy":
         conf["server"] = {"script_name": prefix}
+    if idx % 4 == 3:
+        # the charset of request bodies and of stored files has no say in how URLs are coded (always UTF-8 percent-encoding)
+        conf["encoding"] = {"request": rng.choice(["iso-8859-1", "cp1252", "utf-8"]), "stock": rng.choice(["utf-8", "iso-8859-1"])}
+        case["encoding"] = dict(conf["encoding"])
+        # (the Basic credentials are decoded with the request charset as well: keep the login ASCII, so that it is the
+        #  same user whatever that charset is — the names in URLs stay arbitrary)
+        for _ in range(50):
+            if user.isascii():
+                break
+            user = gen_name(rng, allow_colon=False)
+        if not user.isascii():
+            user = "u"
+        case["user"] = user
     with App(conf) as app:
         login = user + ":pw"
 
